@@ -26,6 +26,9 @@ func famStreams(w *World, c *Case, rng *rand.Rand) {
 	k := 1 + rng.Intn(c.p("maxrpcs", 5))
 	budget := c.p("budget", 3<<20)
 	o := ScriptOpts{MaxMsgs: c.p("maxmsgs", 5), MaxSize: c.p("maxsize", 1<<20+1), Pacing: []string{"eager", "lag", "mixed"}[rng.Intn(3)], Status: c.p("status", 1) == 1, Meta: c.p("meta", 1) == 1, BudgetLeft: &budget}
+	if c.p("big", 0) == 1 {
+		o.BigProb = 25
+	}
 	if !w.Cfg.RevisionOne() {
 		// Without flow control a lagging consumer legitimately stalls the
 		// receive loop; goroutines then queue on the carrier send mutex, which
@@ -51,6 +54,7 @@ func famStreams(w *World, c *Case, rng *rand.Rand) {
 	w.CheckDelivery()
 	w.CheckOutcome()
 	w.CheckTables(w.TCh, 0, 0, true, "after all RPCs finished")
+	w.CheckIdle("after all RPCs finished")
 	w.Stat("rpcs", k)
 	w.Finish()
 }
@@ -125,15 +129,25 @@ func init() {
 		rng := rand.New(rand.NewSource(seed*7919 + 1))
 		n := 240
 		if tier == "thorough" {
-			n = 6000
+			n = 24000
 		}
 		for i := 0; i < n; i++ {
 			out = append(out, Case{Family: "streams", Seed: rng.Int63(), Cfg: pickCfg(rng)})
 		}
+		// multi-megabyte messages (up to 8 MiB + 1)
+		nbig := 6
+		if tier == "thorough" {
+			nbig = 300
+		}
+		for i := 0; i < nbig; i++ {
+			cfg := pickCfg(rng)
+			cfg.CapFrames = 0
+			out = append(out, Case{Family: "streams", Seed: rng.Int63(), Cfg: cfg, P: map[string]int{"maxsize": 8<<20 + 1, "budget": 40 << 20, "maxrpcs": 3, "maxmsgs": 3, "big": 1}})
+		}
 		causes := []string{"rpc-cancel", "rpc-deadline", "handler-deadline", "chan-close", "break", "root-cancel", "stop"}
 		reps := 1
 		if tier == "thorough" {
-			reps = 8
+			reps = 40
 		}
 		for r := 0; r < reps; r++ {
 			for _, cfg := range cfgAxes(allDirs, []string{"on", "bothnofc"}, []int{0}, []time.Duration{0, time.Millisecond}) {
